@@ -13,7 +13,7 @@ LEAN_TARGETS = ["LoguruModel.Props.C19"]
 AUDIT_FILE = "LoguruModel/Audit/C19.lean"
 DRIVER = "Rotation"
 RULE = ("(limit S as int / float / Decimal / spelling, optional companion time condition, file encoding, the sink's "
-        "open() keywords `buffering` (default, 1, -1, 2, 16, 64, 4096, 2^20) and `newline` (absent, None, '', LF, CR, CRLF), line end of the records (newline, or none / "
+        "open() keywords `buffering` (default, 1, -1, 2, 16, 64, 4096, 2^20) and `newline` (absent, None, '', LF, CR, CRLF), the log path (plain, through a symlinked directory, a symlinked file), line end of the records (newline, or none / "
         "'|' as a callable format leaves them), through FileSink.write or through logger.add()/logger.info(), "
         "pre-existing size P, message sequence): messages are sized around the room left in the current file (exact "
         "fit, one byte over, larger than S, empty) with ASCII / 2- / 3- / 4-byte UTF-8 content; a real FileSink writes "
@@ -134,6 +134,33 @@ def listing(d):
     return {n: os.stat(os.path.join(d, n)).st_size for n in os.listdir(d)}
 
 
+PATH_KINDS = ["plain", "plain", "plain", "dir_symlink", "file_symlink"]
+
+
+def make_log_path(d, kind, pre):
+    """where the sink is told to log -> (path handed to loguru, directory to look at).  The path may reach the file
+    through a symbolic link: a symlinked log directory (/var/log/app -> /data/logs) or a symlinked log file."""
+    logdir = os.path.join(d, "logs")
+    if kind == "dir_symlink":
+        real = os.path.join(d, "real_logs")
+        os.mkdir(real)
+        os.symlink(real, logdir)
+    else:
+        os.mkdir(logdir)
+    path = os.path.join(logdir, "app.log")
+    if kind == "file_symlink":
+        os.mkdir(os.path.join(d, "targets"))
+        target = os.path.join(d, "targets", "current.log")
+        if pre is not None:
+            with open(target, "wb") as fh:
+                fh.write(pre)
+        os.symlink(target, path)
+    elif pre is not None:
+        with open(path, "wb") as fh:
+            fh.write(pre)
+    return path, logdir
+
+
 def over_limit(d, limit, blobs):
     """first file in the directory that breaks the bound *as the disk shows it right now*: more than `limit`
     bytes and not (a prefix of) one single message"""
@@ -146,7 +173,8 @@ def over_limit(d, limit, blobs):
     return None
 
 
-def run_sink_case(obj, ts0, pre, msgs, encoding, texts_bytes, S, P, buffering=None, newline="default"):
+def run_sink_case(obj, ts0, pre, msgs, encoding, texts_bytes, S, P, buffering=None, newline="default",
+                  path_kind="plain"):
     """like R.impl_sink, but looks at the directory after every call (direct oracle, first half).
     The stream is NOT flushed by the harness: what the rotation test does not count must not pile up."""
     import loguru._file_sink as fs
@@ -162,11 +190,9 @@ def run_sink_case(obj, ts0, pre, msgs, encoding, texts_bytes, S, P, buffering=No
     if newline != "default":
         kw["newline"] = newline
     try:
-        path = os.path.join(d, "app.log")
-        if pre is not None:
-            with open(path, "wb") as fh:
-                fh.write(pre)
-        with R.patched_ctime(lambda p: ctimes.get(p, ts0), ctimes.__setitem__):
+        path, d_logs = make_log_path(d, path_kind, pre)
+        rp = os.path.realpath
+        with R.patched_ctime(lambda p: ctimes.get(rp(p), ts0), lambda p, t: ctimes.__setitem__(rp(p), t)):
             fs.datetime = clock.module
             try:
                 try:
@@ -179,7 +205,7 @@ def run_sink_case(obj, ts0, pre, msgs, encoding, texts_bytes, S, P, buffering=No
                             clock.now_us = utc
                             sink.write(R.make_message(text, utc, off))
                             if over is None:
-                                hit = over_limit(d, max(S, P), blobs)
+                                hit = over_limit(d_logs, max(S, P), blobs)
                                 if hit:
                                     over = (i,) + hit
                 except R.Hang:
@@ -192,15 +218,15 @@ def run_sink_case(obj, ts0, pre, msgs, encoding, texts_bytes, S, P, buffering=No
             finally:
                 fs.datetime = old_dt
         files = []
-        for name in os.listdir(d):
-            with open(os.path.join(d, name), "rb") as fh:
+        for name in os.listdir(d_logs):
+            with open(os.path.join(d_logs, name), "rb") as fh:
                 files.append((name, fh.read()))
         return ("ok", files), over
     finally:
         shutil.rmtree(d, ignore_errors=True)
 
 
-def run_logger_case(obj, pre, bodies, end, encoding, S, P, buffering=None, newline="default"):
+def run_logger_case(obj, pre, bodies, end, encoding, S, P, buffering=None, newline="default", path_kind="plain"):
     """the same through the public API: logger.add(path, format=…, rotation=…, buffering=…, encoding=…) and
     logger.info(); `end` == "\n" uses the string format "{message}", anything else a callable format that
     leaves the record without a line end.  Only size conditions (the clock is real here)."""
@@ -217,10 +243,7 @@ def run_logger_case(obj, pre, bodies, end, encoding, S, P, buffering=None, newli
     if newline != "default":
         kw["newline"] = newline
     try:
-        path = os.path.join(d, "app.log")
-        if pre is not None:
-            with open(path, "wb") as fh:
-                fh.write(pre)
+        path, d_logs = make_log_path(d, path_kind, pre)
         fmt = "{message}" if end == "\n" else (lambda record: "{message}" + end)
         try:
             hid = logger.add(path, format=fmt, rotation=obj, encoding=encoding, colorize=False, catch=False, **kw)
@@ -231,7 +254,7 @@ def run_logger_case(obj, pre, bodies, end, encoding, S, P, buffering=None, newli
                 for i, b in enumerate(bodies):
                     logger.info(b)
                     if over is None:
-                        hit = over_limit(d, max(S, P), blobs)
+                        hit = over_limit(d_logs, max(S, P), blobs)
                         if hit:
                             over = (i,) + hit
         except R.Hang:
@@ -241,8 +264,8 @@ def run_logger_case(obj, pre, bodies, end, encoding, S, P, buffering=None, newli
         finally:
             logger.remove(hid)
         files = []
-        for name in os.listdir(d):
-            with open(os.path.join(d, name), "rb") as fh:
+        for name in os.listdir(d_logs):
+            with open(os.path.join(d_logs, name), "rb") as fh:
                 files.append((name, fh.read()))
         return ("ok", files), over
     finally:
@@ -271,20 +294,21 @@ def run(ctx):
     lines, expect = [], []
 
     def sink_case(obj, token, S, P, encoding, texts, stamps, off, eff, ts, pure, rep_extra, key=None, how="",
-                  buffering=None, via="sink", end="\n", newline="default"):
+                  buffering=None, via="sink", end="\n", newline="default", path_kind="plain"):
         pre = (b"x" * P) if P else None
         tb = [len(t.encode(encoding)) for t in texts]                      # what rotation_size adds
         disk_texts = [on_disk(t, newline) for t in texts]
         db = [len(t.encode(encoding)) for t in disk_texts]                 # what reaches the file
         if via == "logger":
             got, over = run_logger_case(obj, pre, [t[:len(t) - len(end)] for t in texts], end, encoding, S, P, buffering,
-                                        newline)
+                                        newline, path_kind)
         else:
             got, over = run_sink_case(obj, ts, pre, [(u, off, t) for u, t in zip(stamps, texts)], encoding, tb, S, P,
-                                      buffering, newline)
+                                      buffering, newline, path_kind)
         rep = dict({"stream": "sink", "token": token, "spelling": obj if isinstance(obj, str) else repr(obj),
                     "limit_floor": S, "pre": P, "encoding": encoding, "texts": texts, "stamps": stamps, "offset": off,
-                    "ctime": eff, "buffering": buffering, "via": via, "end": end, "newline": newline}, **rep_extra)
+                    "ctime": eff, "buffering": buffering, "via": via, "end": end, "newline": newline, "path_kind": path_kind}, **rep_extra)
+        ctx.stat("path:" + path_kind)
         ctx.stat("newline:%r" % (newline,))
         ctx.stat("buffering:%s" % ("default" if buffering is None else buffering))
         ctx.stat("line_end:" + ("newline" if end == "\n" else "none" if end == "" else "other"))
@@ -293,9 +317,9 @@ def run(ctx):
             ctx.violation("file sink with rotation %r: %s" % (rep["spelling"], got), dict(rep, observed=list(got)), key=key)
             return
         if over is not None and db == tb:
-            ctx.violation("rotation %r, encoding %s, buffering %s, via %s: after message %d file %s has %d bytes on disk "
-                          "> limit %d and is not a single message" % (rep["spelling"], encoding, buffering, via, over[0],
-                                                                     over[1], over[2], S),
+            ctx.violation("rotation %r, encoding %s, buffering %s, via %s, path %s: after message %d file %s has %d bytes "
+                          "on disk > limit %d and is not a single message" % (rep["spelling"], encoding, buffering, via,
+                                                                             path_kind, over[0], over[1], over[2], S),
                           dict(rep, observed=list(over)), key=key)
         part = R.partition_of(got[1], disk_texts, encoding, pre)
         if part is None:
@@ -330,8 +354,9 @@ def run(ctx):
                 ctx.violation("rotation %r: a file has %d bytes but its messages add up to %d"
                               % (rep["spelling"], size, init + sum(db[i] for i in idx)), rep, key=key)
             if not (size <= max(S, init) or (len(idx) == 1 and init == 0)):
-                ctx.violation("rotation %r, encoding %s, buffering %s, newline %r, via %s, limit %d: a file with messages "
-                              "%s holds %d bytes on disk%s" % (rep["spelling"], encoding, buffering, newline, via, S, idx, size,
+                ctx.violation("rotation %r, encoding %s, buffering %s, newline %r, via %s, path %s, limit %d: a file with "
+                              "messages %s holds %d bytes on disk%s" % (rep["spelling"], encoding, buffering, newline, via,
+                                                                     path_kind, S, idx, size,
                                                             " (rotation_size counted %d + %s)" % (init, [tb[i] for i in idx])
                                                             if db != tb else ""),
                               dict(rep, observed=[idx, size]), key=key)
@@ -368,7 +393,7 @@ def run(ctx):
         sink_case(R.object_of_token(c["token"]), c["token"], c["limit_floor"], c.get("pre", 0), c.get("encoding", "utf8"),
                   texts, stamps, 0, eff, ts, True, {"corpus": name}, key=c.get("key"), how="corpus",
                   buffering=c.get("buffering"), via=c.get("via", "sink"), end=c.get("end", "\n"),
-                  newline=c.get("newline", "default"))
+                  newline=c.get("newline", "default"), path_kind=c.get("path_kind", "plain"))
 
     # ---- stream 1: real FileSinks around the limit
     n1 = ctx.n(2500, 30000) * boost
@@ -401,6 +426,7 @@ def run(ctx):
             how += "+time"
         buffering = rng.choice(BUFFERINGS)
         newline = rng.choice(NEWLINES)
+        path_kind = rng.choice(PATH_KINDS)
         end = rng.choice(LINE_ENDS)
         via = "logger" if pure and rng.chance(20) else "sink"
         nmsg = rng.range(2, 9) if rng.chance(80) else rng.range(9, 16)
@@ -431,7 +457,7 @@ def run(ctx):
             t += rng.choice([0, 1, 1000, 60 * 10**6, R.HOUR, R.HOUR * 7, R.DAY]) if not pure else k
             stamps.append(t)
         sink_case(obj, token, S, P, encoding, texts, stamps, off, eff, ts, pure, {}, how=how, buffering=buffering,
-                  via=via, end=end, newline=newline)
+                  via=via, end=end, newline=newline, path_kind=path_kind)
 
     # ---- stream 2: spellings of sizes denote the documented quantities (value level)
     from loguru import _string_parsers as sp
@@ -531,14 +557,15 @@ def replay(ctx, rep):
         tb = [len(t.encode(enc_)) for t in texts]
         buffering, via, end = r.get("buffering"), r.get("via", "sink"), r.get("end", "\n")
         newline = r.get("newline", "default")
+        path_kind = r.get("path_kind", "plain")
         disk_texts = [on_disk(t, newline) for t in texts]
         if via == "logger":
             got, over = run_logger_case(obj, (b"x" * P) if P else None, [t[:len(t) - len(end)] for t in texts], end, enc_,
-                                        S, P, buffering, newline)
+                                        S, P, buffering, newline, path_kind)
         else:
             got, over = run_sink_case(obj, R.ctime_pair(r["ctime"])[0], (b"x" * P) if P else None,
                                       [(u, r["offset"], t) for u, t in zip(r["stamps"], texts)], enc_, tb, S, P, buffering,
-                                      newline)
+                                      newline, path_kind)
         bad = got[0] != "ok" or over is not None
         sizes = None
         if got[0] == "ok":
@@ -564,8 +591,8 @@ def replay(ctx, rep):
                             prev = [s for i2, s, f2 in part if i2 and i2[-1] == k - 1]
                             if prev and prev[0] + tb[k] <= S:
                                 bad = True
-        print("rotation=%r encoding=%s limit=%d pre=%d buffering=%s newline=%r via=%s line end=%r"
-              % (r.get("spelling"), enc_, S, P, buffering, newline, via, end))
+        print("rotation=%r encoding=%s limit=%d pre=%d buffering=%s newline=%r via=%s line end=%r path=%s"
+              % (r.get("spelling"), enc_, S, P, buffering, newline, via, end, path_kind))
         print("files (messages, bytes):", sizes if sizes is not None else got)
         print("first over-limit file seen during the run:", over)
     print("REPRODUCED" if bad else "not reproduced")
